@@ -2,6 +2,7 @@ package c12
 
 import (
 	"fmt"
+	"sort"
 
 	"verifharness/internal/rng"
 )
@@ -142,7 +143,7 @@ type histGen struct {
 
 func (g *histGen) op(depth int) Op {
 	r := g.r
-	k := r.Intn(20)
+	k := r.Intn(24)
 	switch {
 	case k < 1:
 		return Op{Tag: "T", Text: rng.Pick(r, []string{"txt", "<p>a</p>", " "})}
@@ -165,6 +166,21 @@ func (g *histGen) op(depth int) Op {
 			o.Scripts = genScripts(r, 2)
 		}
 		return o
+	case k >= 20:
+		// a component with (mostly) a children slot, called with a block or self-closing
+		o := Op{Tag: "S", Slot: r.Intn(4) != 0, Block: r.Intn(2) == 0}
+		for i := r.Intn(3); i > 0; i-- {
+			o.Pre = append(o.Pre, g.op(depth-1))
+		}
+		if o.Block {
+			for i := 1 + r.Intn(3); i > 0; i-- {
+				o.Body = append(o.Body, g.op(depth-1))
+			}
+		}
+		for i := r.Intn(2); i > 0; i-- {
+			o.Post = append(o.Post, g.op(depth-1))
+		}
+		return o
 	default:
 		h := 1 + r.Intn(3)
 		hi, ok := g.handles[h]
@@ -178,6 +194,10 @@ func (g *histGen) op(depth int) Op {
 		}
 		if hi.fixed {
 			return Op{Tag: "O", H: h, Fixed: true, Body: hi.body}
+		}
+		if r.Intn(6) == 0 {
+			// a handle that has no component, called without a block
+			return Op{Tag: "O", H: h, Self: true}
 		}
 		return Op{Tag: "O", H: h, Body: g.body(h, depth-1)}
 	}
@@ -281,6 +301,63 @@ func mwSituations(h Hist) []string {
 			out = append(out, s)
 		}
 	}
+	return out
+}
+
+// slotSituations names, for the evidence histogram, the ways the children slot of the context is exercised: which kinds
+// of call a history makes, and which kind of use comes directly before a call that finds its slot empty.
+func slotSituations(h Hist) []string {
+	seen := map[string]bool{}
+	kind := func(o Op) string {
+		switch {
+		case o.Tag == "O" && o.Fixed:
+			return "self-closing call on a once handle built with a component"
+		case o.Tag == "O" && o.Self:
+			return "self-closing call on a once handle without component"
+		case o.Tag == "O":
+			return "once handle called with a block"
+		case o.Tag == "S" && o.Slot && o.Block:
+			return "component with a children slot called with a block"
+		case o.Tag == "S" && o.Slot:
+			return "component with a children slot called without a block"
+		case o.Tag == "S" && o.Block:
+			return "component without children slot called with a block"
+		case o.Tag == "S":
+			return "component without children slot called without a block"
+		}
+		return ""
+	}
+	var walk func(l []Op)
+	walk = func(l []Op) {
+		prev := ""
+		for _, o := range l {
+			k := kind(o)
+			if k != "" {
+				seen[k] = true
+			}
+			if (o.Tag == "S" && o.Slot && !o.Block || o.Tag == "O" && o.Self) && prev != "" {
+				seen[prev+", directly followed by a "+k] = true
+			}
+			prev = k
+			walk(o.Pre)
+			walk(o.Body)
+			walk(o.Post)
+		}
+	}
+	for c := range h.Cfgs {
+		var l []Op
+		for _, co := range h.Ops {
+			if co.Ctx == c && co.Op.Tag != "D" {
+				l = append(l, co.Op)
+			}
+		}
+		walk(l)
+	}
+	var out []string
+	for k := range seen {
+		out = append(out, k)
+	}
+	sort.Strings(out)
 	return out
 }
 
